@@ -132,18 +132,29 @@ func loadFile(sys fs.FS, fname string) (pkgList, error) {
 }
 
 func checkConstraint(s string) (bool, error) {
-	line := strings.Split(strings.TrimSpace(s), "\n")[0]
-	if !constraint.IsGoBuild(line) {
-		return true, nil
+	// a //go:build line counts when only blank lines and // comments precede it (gofmt puts it
+	// below the licence header); the first one decides
+	for _, line := range strings.Split(s, "\n") {
+		line = strings.TrimSpace(line)
+		if line == "" {
+			continue
+		}
+		if !strings.HasPrefix(line, "//") {
+			break
+		}
+		if !constraint.IsGoBuild(line) {
+			continue
+		}
+		expr, err := constraint.Parse(line)
+		if err != nil {
+			return false, err
+		}
+		ok := func(t string) bool { return t == "goat" }
+		return expr.Eval(ok), nil
 	}
-	expr, err := constraint.Parse(line)
-	if err != nil {
-		return false, err
-	}
-	ok := func(t string) bool { return t == "goat" }
-	return expr.Eval(ok), nil
-
+	return true, nil
 }
+
 func rawLoadFile(sys fs.FS, fname string, checkBC bool) (*token, error) {
 	if sys == nil {
 		// no file system given (Eval(nil, ...)): nothing can be found in it
